@@ -351,3 +351,41 @@ def exists_box(dims, f):
     if body is True or body is False:
         return body
     return z3.Exists(ks, body)
+
+
+CONGRUENT_DECLS = set()   # names of uninterpreted functions with array arguments (assumed row-wise callables)
+
+
+def smart_eq(x, y, depth=0):
+    """sufficient condition for x == y that never needs lambda extensionality: equalities between
+    applications of the same uninterpreted row-wise function are split argument-wise, array
+    arguments are compared pointwise at fresh indices (goal position), ite-trees are split."""
+    if not (isinstance(x, z3.ExprRef) and isinstance(y, z3.ExprRef)) or depth > 12:
+        return eq(x, y)
+    if x.eq(y):
+        return True
+    if z3.is_app_of(x, z3.Z3_OP_ITE):
+        return z3.If(x.arg(0), to_z3(smart_eq(x.arg(1), y, depth + 1)), to_z3(smart_eq(x.arg(2), y, depth + 1)))
+    if z3.is_app_of(y, z3.Z3_OP_ITE):
+        return z3.If(y.arg(0), to_z3(smart_eq(x, y.arg(1), depth + 1)), to_z3(smart_eq(x, y.arg(2), depth + 1)))
+    if z3.is_app(x) and z3.is_app(y) and x.decl().name() in CONGRUENT_DECLS and x.decl().eq(y.decl()):
+        conj = []
+        for a, b in zip(x.children(), y.children()):
+            if z3.is_array(a):
+                dom = []
+                srt = a.sort()
+                k = 0
+                while True:
+                    try:
+                        dom.append(srt.domain_n(k))
+                        k += 1
+                    except Exception:
+                        break
+                idx = [z3.Const('cg!%d' % next(_fresh_ctr), d) for d in dom]
+                sa = z3.simplify(z3.Select(a, *idx))
+                sb = z3.simplify(z3.Select(b, *idx))
+                conj.append(smart_eq(sa, sb, depth + 1))
+            else:
+                conj.append(eq(a, b) if not a.eq(b) else True)
+        return And(*conj)
+    return eq(x, y)
